@@ -362,6 +362,7 @@ func genLfsTree(rng *rand.Rand, top string, rel bool, caps lfsCaps, wantSkip boo
 		case 1:
 			e.mtime = int64(rng.Intn(1000))
 		}
+		e.uid, e.gid = os.Getuid(), os.Getgid() // what the objects get when the sandbox does not let the harness chown
 		if caps.chown {
 			e.uid, e.gid = rng.Intn(70000), rng.Intn(70000)
 			if rng.Intn(8) == 0 {
